@@ -110,11 +110,15 @@ def prepare_one(idx, desc, configs, warm_modes, keep, thorough):
         ref_job = Job(task, submitter=ref_sub, name="main", hooks=H.make_hooks())
     except Exception as e:  # noqa
         return [], dict(rejected=f"{type(e).__name__}: {str(e)[:120]}")
-    ref = H.execute(ref_job, keep / "ref" / f"{idx}.log")
-    # the parent's Result object of this run (errored ones included) travels to the child as well
-    res_obj = None
+    ref = H.execute(ref_job, keep / "ref" / f"{idx}.log", keep_result=True)
+    # the parent's Result object of this run travels to the child as well: the in-memory object `job.run()` returned, or
+    # for a run that raised the errored Result pydra builds for an errored job (Job.result() with job.errored)
+    res_obj = ref.pop("_res", None)
     try:
-        if ref["err"] is None or ref["err"] != "hang":
+        if res_obj is None and ref["err"] not in (None, "hang"):
+            ref_job._errored = True
+            res_obj = ref_job.result()
+        elif res_obj is None and ref["err"] is None:
             res_obj = ref_job.result()
     except Exception:  # noqa
         res_obj = None
@@ -310,6 +314,9 @@ def judge_entry(part, exp, common, rep):
         # result written by the child
         if ex["res_file"] is None:
             return bad("result-file-missing", "the child run left no readable result file")
+        if ex["err"] is not None and (ex["res_file"]["errored"] is not True or ex["res_file"]["outputs"] is not None):
+            return bad("result-file-differs:errored-run-read-back-as-success",
+                       f"the child run raised {ex['err']}, the result it wrote reads back as {ex['res_file']}")
         if ex["res_mem"] is not None:
             d = first_diff(ex["res_mem"], ex["res_file"])
             if d:
